@@ -45,8 +45,10 @@ func loadProg(repo string, patterns []string, tags string) (*Prog, error) {
 		Tests: false,
 		Env:   append(os.Environ(), "GOWORK=off", "GOFLAGS=-mod=mod", "GOPROXY=off", "GOSUMDB=off"),
 	}
+	// -trimpath makes export data cacheable across scratch copies of the tree (mutant runs, thorough tag sets)
+	cfg.BuildFlags = []string{"-trimpath"}
 	if tags != "" {
-		cfg.BuildFlags = []string{"-tags=" + tags}
+		cfg.BuildFlags = append(cfg.BuildFlags, "-tags="+tags)
 	}
 	pkgs, err := packages.Load(cfg, patterns...)
 	if err != nil {
@@ -478,6 +480,11 @@ func (c *Ctx) finish(verif string, seed int, wall float64, pd PropDef) int {
 	sort.Strings(rs)
 	for _, r := range rs {
 		fmt.Printf("  %s: %d obligations (floor %d)\n", r, counts[r], c.floors[r])
+	}
+	if os.Getenv("VERIF_VERBOSE") != "" {
+		for _, o := range c.Obs {
+			fmt.Printf("    [%s] %s %s @%s\n", o.Verdict, o.Rule, o.Construct, o.Pos)
+		}
 	}
 	for _, l := range lines {
 		fmt.Println(l)
